@@ -257,36 +257,56 @@ def validate_count(count, condition):
         raise ValueError(f"Count value ({count}) does not met the condition: {condition}")
 
 
+def symset(iterable=()):
+    """set() over possibly-symbolic numbers: distinct elements by == (forks on symbolic equalities)"""
+    items = list(iterable)
+    if not any(isinstance(x, R) for x in items):
+        return set(items)
+    out = []
+    for x in items:
+        if not any(bool(x == y) for y in out):
+            out.append(x)
+    return out
+
+
 # ---- schedule: iteration order of address-hashed sets --------------------------------------------
 class ChoiceSet:
-    """A set whose iteration order is chosen by the solver (any order CPython's address hashing can
-    produce), fixed until the set is mutated."""
+    """A set whose iteration order is chosen by the solver: one fixed permutation per set until it is mutated
+    (exactly the freedom CPython's address hashing has).  The permutation is kept as a partial order that is
+    refined lazily.  `relevant(x)` (optional) tells for which elements the consumer's loop body can have an effect;
+    elements for which it is False are yielded first without a fork (partial-order reduction, only enabled when the
+    loop shape in the current source justifies it, see reduction_justified())."""
 
     _counter = 0
 
-    def __init__(self, iterable=()):
+    def __init__(self, iterable=(), relevant=None):
         self._items = []
-        self._order = None
+        self._before = set()     # (id(a), id(b)): a is iterated before b
         ChoiceSet._counter += 1
         self._id = ChoiceSet._counter
         self._epoch = 0
+        self._npick = 0
+        self._relevant = relevant
         for x in iterable:
             self.add(x)
+
+    def _mutated(self):
+        self._before = set()
+        self._epoch += 1
+        self._npick = 0
 
     def add(self, x):
         for y in self._items:
             if y is x or (hash(y) == hash(x) and y == x):
                 return
         self._items.append(x)
-        self._order = None
-        self._epoch += 1
+        self._mutated()
 
     def discard(self, x):
         for i, y in enumerate(self._items):
             if y is x:
                 del self._items[i]
-                self._order = None
-                self._epoch += 1
+                self._mutated()
                 return
 
     def remove(self, x):
@@ -301,31 +321,111 @@ class ChoiceSet:
     def __len__(self):
         return len(self._items)
 
+    _insensitive = set()
+
     def __iter__(self):
         sx = api.CUR
         if sx is None or len(self._items) <= 1:
             return iter(list(self._items))
+        if self._insensitive:
+            co = sys._getframe(1).f_code
+            if (co.co_filename, co.co_name) in self._insensitive:
+                return iter(list(self._items))
         return self._lazy(sx)
 
     def _lazy(self, sx):
-        if self._order is None:
-            self._order = []
-        order = self._order
-        i = 0
-        while True:
-            if i < len(order):
-                yield order[i]
-                i += 1
-                continue
-            rest = [x for x in self._items if not any(x is y for y in order)]
-            if not rest:
+        items = list(self._items)
+        if self._relevant is not None:
+            rel = [x for x in items if self._relevant(x)]
+            for x in items:
+                if not any(x is y for y in rel):
+                    yield x
+        else:
+            rel = items
+        remaining = list(rel)
+        while remaining:
+            if len(remaining) == 1:
+                yield remaining.pop()
                 return
-            k = sx.choice(f"sched:{self._id}:{self._epoch}:{len(order)}", len(rest))
-            sx.schedule_picks = getattr(sx, "schedule_picks", 0) + (1 if len(rest) > 1 else 0)
-            order.append(rest[k])
+            # minimal elements of the known partial order among the remaining ones
+            cands = [x for x in remaining
+                     if not any((id(y), id(x)) in self._before for y in remaining if y is not x)]
+            if len(cands) > 1:
+                k = sx.choice(f"sched:{self._id}:{self._epoch}:{self._npick}", len(cands))
+                self._npick += 1
+                sx.schedule_picks = getattr(sx, "schedule_picks", 0) + 1
+            else:
+                k = 0
+            pick = cands[k]
+            for y in remaining:
+                if y is not pick:
+                    self._before.add((id(pick), id(y)))
+            # transitive closure (sets are tiny)
+            changed = True
+            while changed:
+                changed = False
+                for (a, b) in list(self._before):
+                    for (c, d) in list(self._before):
+                        if b == c and (a, d) not in self._before:
+                            self._before.add((a, d))
+                            changed = True
+            remaining = [y for y in remaining if y is not pick]
+            yield pick
 
     def __repr__(self):
         return f"ChoiceSet({self._items})"
+
+
+def reduction_justified():
+    """The relevance reduction is sound only if the two loops that walk these sets do nothing for elements whose
+    guard is false.  Checked on the *current* source on every run; otherwise full permutations are explored."""
+    import ast
+    import inspect
+
+    import classy_blocks.items.wires.axis as AX
+    import classy_blocks.items.wires.manager as MG
+
+    def loop_ok(func, attr, guard):
+        try:
+            tree = ast.parse(inspect.getsource(func).lstrip() if False else __import__("textwrap").dedent(inspect.getsource(func)))
+        except Exception:
+            return False
+        loops = [n for n in ast.walk(tree) if isinstance(n, (ast.For, ast.comprehension))
+                 and isinstance(n.iter, ast.Attribute) and n.iter.attr == attr]
+        if len(loops) != 1 or not isinstance(loops[0], ast.For):
+            return False
+        body = loops[0].body
+        return (len(body) == 1 and isinstance(body[0], ast.If) and not body[0].orelse and not loops[0].orelse
+                and ast.unparse(body[0].test) == guard)
+
+    ok_axis = loop_ok(AX.Axis.copy_grading, "neighbours", "neighbour.is_defined")
+    ok_wire = loop_ok(MG.WirePropagateManager.copy_neighbours, "coincidents", "coincident.grading.is_defined")
+    # no other iteration over these sets anywhere in items/, lists/ and mesh.py - except loops whose body is a single
+    # `if <test>: raise ...` (their outcome class does not depend on the order; they are iterated without forks)
+    import glob
+    others = 0
+    insensitive = set()
+    for fn in glob.glob("/repo/src/classy_blocks/items/**/*.py", recursive=True) + \
+            glob.glob("/repo/src/classy_blocks/lists/*.py") + ["/repo/src/classy_blocks/mesh.py"]:
+        try:
+            tree = ast.parse(open(fn).read())
+        except Exception:
+            return False, False, set()
+        for fdef in ast.walk(tree):
+            if not isinstance(fdef, (ast.FunctionDef, ast.AsyncFunctionDef)):
+                continue
+            for n in ast.walk(fdef):
+                if isinstance(n, (ast.For, ast.comprehension)) and isinstance(n.iter, ast.Attribute) \
+                        and n.iter.attr in ("neighbours", "coincidents"):
+                    if isinstance(n, ast.For) and len(n.body) == 1 and isinstance(n.body[0], ast.If) \
+                            and not n.body[0].orelse and not n.orelse and len(n.body[0].body) == 1 \
+                            and isinstance(n.body[0].body[0], ast.Raise):
+                        insensitive.add((fn, fdef.name))
+                    else:
+                        others += 1
+    if others != 2:
+        return False, False, set()
+    return ok_axis, ok_wire, insensitive
 
 
 # ---- install ---------------------------------------------------------------------------------------
@@ -334,6 +434,8 @@ def install(choice_sets=False):
     global _INSTALLED
     cb = import_all()
     if _INSTALLED:
+        if choice_sets:
+            install_choice_sets()
         return cb
     _INSTALLED = True
     for name, mod in list(sys.modules.items()):
@@ -358,6 +460,10 @@ def install(choice_sets=False):
     STUBS.append("grading.chop/relations: int()->identity/floor on proxies; relations._validate_count->same "
                  "comparison without eval(); relations.np.isnan->False on proxies; grading.math.isclose->same formula")
 
+    import classy_blocks.items.wires.manager as MG
+    MG.set = symset
+    STUBS.append("items.wires.manager: set(counts) -> distinct-by-== list (forks on symbolic equalities)")
+
     import classy_blocks.items.edges.arcs.origin as OR
     OR.np = _NpFacade()
     STUBS.append("items.edges.arcs.origin: np.isnan->False on proxies (NaN-producing operations end the path)")
@@ -377,10 +483,17 @@ def install(choice_sets=False):
 def install_choice_sets():
     import classy_blocks.items.wires.axis as AX
     import classy_blocks.items.wires.wire as WI
-    AX.set = ChoiceSet
-    WI.set = ChoiceSet
+
+    ok_axis, ok_wire, insensitive = reduction_justified()
+    ChoiceSet._insensitive = insensitive
+    axis_rel = (lambda a: a.is_defined) if ok_axis else None
+    wire_rel = (lambda w: w.grading.is_defined) if ok_wire else None
+    AX.set = lambda it=(): ChoiceSet(it, relevant=axis_rel)
+    WI.set = lambda it=(): ChoiceSet(it, relevant=wire_rel)
     if "ChoiceSet" not in " ".join(STUBS):
-        STUBS.append("items.wires.axis/wire: set -> ChoiceSet (iteration order chosen by the solver)")
+        STUBS.append("items.wires.axis/wire: set -> ChoiceSet (iteration order chosen by the solver; partial-order "
+                     f"reduction on no-op elements: neighbours={ok_axis}, coincidents={ok_wire}; order-insensitive "
+                     f"raise-only loops: {sorted(n for _, n in insensitive)})")
 
 
 # ---- stub validation (translator validation, run on every check) -----------------------------------
